@@ -1,8 +1,8 @@
 P = []
 def p(i, props, f, old, new): P.append((i, props, f, old, new))
 p("bdat-last-refused", "C05", "conn.go", """	if len(args) > 2 {
-		c.writeResponse(501, EnhancedCode{5, 5, 4}, "Too many arguments")""", """	if len(args) >= 2 {
-		c.writeResponse(501, EnhancedCode{5, 5, 4}, "Too many arguments")""")
+		// The size is known""", """	if len(args) >= 2 {
+		// The size is known""")
 p("auth-mech-case", "C09,C12", "conn.go", "	mechanism := strings.ToUpper(parts[0])", "	mechanism := parts[0]")
 p("verb-case-sensitive", "C04,C11,C03", "conn.go", """	cmd = strings.ToUpper(cmd)
 	switch cmd {""", """	switch cmd {""")
